@@ -18,6 +18,7 @@
     util.py         is_nested, shape_to_size       -> `STree.isNested`, `shapeToSize`
     _blockarray.py  dtype (property)               -> `dtypeOf`
     _blockarray.py  __getitem__ (slice)            -> `sliceBounds`, `sliceLen`, `sliceIdx`, `getSlice`
+    _blockarray.py  __setitem__ (slice)            -> `assignAt`, `setSlice`
     _blockarray.py  __setitem__                    -> `pyIndex`, `setItem` (before d088c11: `setItemOld`)
     scico/random.py _add_seed.fun_alt              -> `keyOf`, `seedOf`, `addSeedCore`, `addSeed`
                     _wrap                          -> `randomWrapped` (+ `bindArgs`: signature binding)
@@ -414,6 +415,27 @@ def getSlice [DecidableEq δ] (E : Env α δ) (self : List α) (start stop step 
   | none => .error .value
   | some (a, b, st) => mkBlock E ((sliceIdx a b st).filterMap (fun j => self[j.toNat]?))
 
+/-! ### `__setitem__` with a slice -/
+
+/-- `for i, v in zip(indices, values): l[i] = v` -/
+def assignAt : List α → List Nat → List α → List α
+  | l, i :: is, v :: vs => assignAt (l.set i v) is vs
+  | l, _, _ => l
+
+/-- `x[start:stop:step] = values` (d088c11): Python list slice assignment on a copy of the block list,
+    then the constructor.  A simple slice (`step` omitted or 1) is replaced by any number of values —
+    the number of blocks changes; an extended slice needs exactly as many values as it has indices
+    (ValueError otherwise).  `values` = the elements the right-hand side iterates to. -/
+def setSlice [DecidableEq δ] (E : Env α δ) (self : List α) (start stop step : Option Int) (values : List α) :
+    Res (List α) :=
+  match sliceBounds self.length start stop step with
+  | none => .error .value
+  | some (a, b, st) =>
+    if st = 1 then
+      mkBlock E (self.take a.toNat ++ values ++ self.drop (max a b).toNat)
+    else if values.length ≠ sliceLen a b st then .error .shape   -- ValueError "… sequence of size m to extended slice of size k"
+    else mkBlock E (assignAt self ((sliceIdx a b st).map Int.toNat) values)
+
 end more
 
 /-! ### `scico.random`: `_add_seed ∘ map_func_over_tuple_of_tuples` -/
@@ -509,39 +531,60 @@ def randomWrapped {α δ κ σ β : Type} [DecidableEq δ] (E : Env α δ) (P : 
 section pytrees
 variable {α δ : Type}
 
-/-- a pytree over leaves `α`: a leaf, a standard container of sub-trees, or a block array (its blocks
-    are leaves: arrays, tracers, or the placeholder objects of a transformation) -/
+/-- a pytree over leaves `α`: a leaf, a standard container of sub-trees, or a block array whose blocks
+    are pytrees themselves — normally leaves (arrays, tracers, placeholder objects of a transformation),
+    but also block arrays or tuples (what `jax.hessian` / `jacfwd` of a function of a block array return) -/
 inductive PT (α : Type) where
   | leaf : α → PT α
   | tup : List (PT α) → PT α
-  | blk : List α → PT α
+  | blk : List (PT α) → PT α
 
 mutual
 /-- `jax.tree_util.tree_leaves` -/
 def PT.leaves : PT α → List α
   | .leaf a => [a]
   | .tup cs => leavesL cs
-  | .blk bs => bs
+  | .blk bs => leavesL bs
 def leavesL : List (PT α) → List α
   | [] => []
   | c :: cs => c.leaves ++ leavesL cs
 end
 
 mutual
-/-- `jax.tree_util.tree_structure`: the tree with its leaves forgotten (a block array node keeps its
-    number of blocks) -/
+/-- `jax.tree_util.tree_structure`: the tree with its leaves forgotten -/
 def PT.struct : PT α → PT Unit
   | .leaf _ => .leaf ()
   | .tup cs => .tup (structL cs)
-  | .blk bs => .blk (bs.map (fun _ => ()))
+  | .blk bs => .blk (structL bs)
 def structL : List (PT α) → List (PT Unit)
   | [] => []
   | c :: cs => c.struct :: structL cs
 end
 
+/-- `isinstance(child, jnp.ndarray)` for a rebuilt child: only a leaf can be an array -/
+def childArr (E : Env α δ) : PT α → Bool
+  | .leaf a => E.isArr a
+  | _ => false
+
+/-- the values of the children that are leaves -/
+def leafVals : List (PT α) → List α
+  | [] => []
+  | .leaf a :: cs => a :: leafVals cs
+  | _ :: cs => leafVals cs
+
+/-- the registered `_unflatten(aux, children)` on rebuilt children: the constructor (dtype check) when
+    every child is an array, otherwise the children are stored as they are -/
+def unflattenNode [DecidableEq δ] (E : Env α δ) (ts : List (PT α)) : Res (PT α) :=
+  if ts.all (childArr E) then
+    match mkBlock E (leafVals ts) with
+    | .error e => .error e
+    | .ok vs => .ok (.blk (vs.map PT.leaf))
+  else .ok (.blk ts)
+
 mutual
-/-- `jax.tree_util.tree_unflatten(treedef, leaves)`: consumes the leaves left to right; standard
-    containers are rebuilt as they are, a block array node calls the registered `unflatten` -/
+/-- `jax.tree_util.tree_unflatten(treedef, leaves)`: consumes the leaves left to right, children
+    first; standard containers are rebuilt as they are, a block array node calls the registered
+    `_unflatten` on its rebuilt children -/
 def unflat [DecidableEq δ] (E : Env α δ) : PT Unit → List α → Res (PT α × List α)
   | .leaf _, l =>
     match l with
@@ -552,11 +595,12 @@ def unflat [DecidableEq δ] (E : Env α δ) : PT Unit → List α → Res (PT α
     | .error e => .error e
     | .ok (ts, r) => .ok (.tup ts, r)
   | .blk us, l =>
-    if l.length < us.length then .error .value
-    else
-      match treeUnflatten E () (l.take us.length) with
+    match unflatL E us l with
+    | .error e => .error e
+    | .ok (ts, r) =>
+      match unflattenNode E ts with
       | .error e => .error e
-      | .ok b => .ok (.blk b, l.drop us.length)
+      | .ok t => .ok (t, r)
 def unflatL [DecidableEq δ] (E : Env α δ) : List (PT Unit) → List α → Res (List (PT α) × List α)
   | [], l => .ok ([], l)
   | c :: cs, l =>
